@@ -9,6 +9,7 @@ import (
 	"strings"
 	"time"
 
+	abci "github.com/cometbft/cometbft/abci/types"
 	cmtproto "github.com/cometbft/cometbft/proto/tendermint/types"
 	bridgetypes "github.com/tellor-io/layer/x/bridge/types"
 	disputetypes "github.com/tellor-io/layer/x/dispute/types"
@@ -32,19 +33,20 @@ import (
 
 // Profile tunes the workload towards the states a property talks about.
 type Profile struct {
-	Name      string
-	W         map[string]float64 // op weights; missing => default
-	MinTx     int
-	MaxTx     int
-	Hostile   float64 // probability of a hostile spelling / boundary value per field
-	VoteFault float64 // probability per validator per block of an absent/nil/garbage vote (never >1/3 power at once)
-	GapBig    float64 // probability of a long time gap
-	Gov       bool    // allow governance proposals
-	GovHalt   bool    // allow governance changes known to stop the chain (cycle list shrink etc.)
-	Deposits  bool    // run the deposit fast-forward fragment
-	NoFaults  bool    // never let validators miss votes (C03 scope)
-	Fragments []string
-	SubMs     float64 // <0: block times stay on whole milliseconds; otherwise about a third of the blocks get a sub-millisecond part
+	Name       string
+	W          map[string]float64 // op weights; missing => default
+	MinTx      int
+	MaxTx      int
+	Hostile    float64 // probability of a hostile spelling / boundary value per field
+	VoteFault  float64 // probability per validator per block of an absent/nil/garbage vote (never >1/3 power at once)
+	GapBig     float64 // probability of a long time gap
+	Gov        bool    // allow governance proposals
+	GovHalt    bool    // allow governance changes known to stop the chain (cycle list shrink etc.)
+	Deposits   bool    // run the deposit fast-forward fragment
+	NoFaults   bool    // never let validators miss votes (C03 scope)
+	Fragments  []string
+	Equivocate float64 // per-block probability (once per history) that the weakest validators' double sign is reported: slashing makes share prices differ from 1
+	SubMs      float64 // <0: block times stay on whole milliseconds; otherwise about a third of the blocks get a sub-millisecond part
 }
 
 var defaultWeights = map[string]float64{
@@ -90,6 +92,7 @@ type Gen struct {
 	extraVals int
 	Samples   []string
 	// set by fragment steps
+	equivocated bool
 	ForceGap    time.Duration // gap of the block being planned
 	FastForward int           // empty blocks (1 s apart) the runner inserts after this block
 }
@@ -299,6 +302,24 @@ func (g *Gen) Plan() BlockPlan {
 	if g.ForceGap != 0 {
 		p.Gap = g.ForceGap
 		g.ForceGap = 0
+	}
+	// double-sign evidence against one of the two weakest validators of a set of at least four (x/evidence slashes 5 %,
+	// jails and tombstones it): from then on its delegators' shares are worth less than one token each
+	if g.P.Equivocate > 0 && !g.equivocated && h > 25 && g.jr.Chance(g.P.Equivocate) {
+		if vs := g.c.Valset(h); len(vs) >= 4 {
+			sorted := append([]CometVal{}, vs...)
+			sort.Slice(sorted, func(i, j int) bool { return sorted[i].Power < sorted[j].Power })
+			victim := sorted[g.jr.Pick(2)]
+			var total int64
+			for _, v := range vs {
+				total += v.Power
+			}
+			if victim.Power*3 < total {
+				p.Misbehavior = []abci.Misbehavior{{Type: abci.MisbehaviorType_DUPLICATE_VOTE, Validator: abci.Validator{Address: victim.Keys.ConsAdr, Power: victim.Power},
+					Height: int64(h) - 1, Time: g.c.Time, TotalVotingPower: total}}
+				g.equivocated = true
+			}
+		}
 	}
 	// CometBFT block times are at least 1 ms apart but carry nanoseconds: a third of the blocks get a sub-millisecond part
 	if g.P.SubMs >= 0 && g.jr.Chance(0.35) {
